@@ -220,6 +220,23 @@ def other_untouched(g, other, other_snap):
     return None
 
 
+def mpo_convertible(g):
+    """True / error text: MPO.from_opgraph(qd = [0, 1], g, charged operator map of the generator) succeeds and has the dense matrix
+    of the graph (regression of F18: a flipped graph with non-zero bond quantum numbers failed the sparsity assertion)"""
+    import pytenet as ptn
+    oids = sorted({i for e in g.edges.values() for i, _ in e.opics} | {0})
+    enc_opmap = oglib.rand_opmap(np.random.default_rng(7), oids, 2, oid_identity=0, deltas={**oglib.DELTA, 5: 99}, qd=[0, 1])
+    opmap = oglib.opmap_of(enc_opmap)
+    try:
+        m = ptn.MPO.from_opgraph([0, 1], g, opmap)
+        ref = g.as_matrix(opmap)
+        if np.abs(np.asarray(m.as_matrix()) - np.asarray(ref)).max(initial=0) > 1e-9:
+            return 'dense matrix of the MPO differs from the matrix of the graph'
+        return True
+    except Exception as ex:
+        return f'{type(ex).__name__}: {ex}'
+
+
 def oracle_history(raw, steps):
     """run the history on the real code, checking the property after every step; None or a description"""
     try:
@@ -247,6 +264,7 @@ def oracle_history(raw, steps):
                 return None
         elif k == 'flip':
             want = sym_rev(den)
+            pre_conv = mpo_convertible(g) if len(g.nodes) <= 12 else None
         elif k == 'add':
             try:
                 other = oglib.build_graph(st['other'])
@@ -272,6 +290,10 @@ def oracle_history(raw, steps):
             return f'step {idx} ({k}): graph denotes {got}, expected {want}'
         if not g.is_consistent():
             return f'step {idx} ({k}): graph is not consistent afterwards'
+        if k == 'flip' and pre_conv is True:
+            post = mpo_convertible(g)
+            if post is not True:
+                return f'step {idx} (flip): the graph could be converted to an MPO (qd = [0, 1]) before the flip, afterwards MPO.from_opgraph fails: {post}'
         if k in ('simplify', 'simplify_step') and (len(g.nodes) > nn or len(g.edges) > ne):
             return f'step {idx} ({k}): number of nodes/edges increased'
         if k == 'add':
